@@ -73,8 +73,8 @@ PROPS["C12"] = loop("exploration",
     "runtime monitoring: boundary-log checker against an executable loop contract, virtual clock", evaluations=("schedules",))
 PROPS["C20"] = loop("fault_enumeration",
     "one evaluation = one execution of the real loop with the k-th driver call (register, poll, read keyboard, read tablet, send) failing, for every k of the fault-free run of a sampled (layout, history, schedule) (every k-th when the run has > 120 calls in quick); non-trivial/distinct = (layout, schedule, k) whose fault point was reached", {}, {},
-    "Fault enumeration: for each sampled schedule the fault-free run counts its driver calls n, then the run is repeated n times with call k returning an error; the loop must return that error, write nothing afterwards and stop within 64 calls.",
-    "runtime monitoring with fault injection at every driver call in turn; oracle on the boundary log", evaluations=("fault_runs",))
+    "Fault enumeration: for each sampled schedule the fault-free run counts its driver calls n, then the run is repeated n times with call k returning an error; the loop must return that error, write nothing afterwards and stop within 64 calls. Three quarters of the injected errors carry the text the real driver produces for an OS error at that kind of call (the loop's own format strings filled with nix's rendering of an errno value).",
+    "runtime monitoring with fault injection at every driver call in turn (error texts: a marker, or what the real driver would print for one of 28 errno values); oracle on the boundary log", evaluations=("fault_runs",))
 
 PROPS["C17"] = {
     "engine": "systemd", "level": "exploration", "evaluations": ["patterns_lists"],
@@ -86,7 +86,7 @@ PROPS["C17"] = {
                     "the ';' command-separator rule is not modelled (not among the rules the property enumerates)"],
     "level_text": "Independent decoder of systemd's ExecStart rules applied to the text the real code generates; exact argv comparison, byte for byte. Exhaustive on single scalar values and on pairs of syntax-relevant characters, sampled beyond.",
     "level_note": "Trusted: the decoder (written from systemd.service(5)/systemd.syntax(7), self-tested on hand-written lines at start-up) and the build_service_text wrapper hook.",
-    "design_ref": "3 C17", "technique": "runtime monitoring: differential round trip of the real escaper through an independent reference decoder, exhaustive sub-spaces",
+    "design_ref": "3 C17", "technique": "runtime monitoring: differential round trip of the real escaper through an independent reference decoder; exhaustive sub-spaces (all scalar values, alone and next to an escape; pairs/triples and 4/5-grams of syntax characters; every literal escape spelling) plus a dictionary mined from the program's own string literals",
     "exhaustive_counter": "single_scalar_values", "exhaustive_text": "all 1,112,063 non-NUL Unicode scalar values as one-character patterns; all pairs over the syntax-relevant characters",
 }
 
@@ -100,7 +100,7 @@ PROPS["C18"] = {
     "assumptions": ["a pipe stands in for /dev/uinput and for the evdev node (no ioctl is involved in send/next)", "struct layout taken from the libc crate for this target"],
     "level_text": "Byte oracle from libc::input_event on everything the real writer emits, decode-back through the real reader, exhaustive over the 484 key codes, sampled over batch shapes and interleavings.",
     "level_note": "Trusted: libc's struct input_event, the verif_from_fd constructor hook, the transcription of kernel key codes from the uinput-sys crate used to cross-check the numeric codes.",
-    "design_ref": "3 C18", "technique": "runtime monitoring: byte-level oracle on a pipe + decode-back differential, exhaustive over key codes",
+    "design_ref": "3 C18", "technique": "runtime monitoring: byte-level oracle on a pipe + decode-back differential, exhaustive over key codes; sessions of related consecutive batches through one writer/reader with injected failing sends (state across calls)",
     "exhaustive_counter": "exhaustive_single", "exhaustive_text": "all key codes the enum knows x {press, release}, alone and in pairs with a neighbour",
 }
 
@@ -141,7 +141,7 @@ PROPS["C15"] = {
     "assumptions": ["a tmpfs over /etc in a private mount namespace stands in for the real /etc (if the namespace cannot be created the same serialiser is used through a temp file and the evidence says so; the floor then fails)"],
     "level_text": "End-to-end differential on the real save and load code paths, exhaustive over the 484 key codes, sampled over layouts.",
     "level_note": "Trusted: the write_layout_to_global_config wrapper hook, PartialEq on Mapping.",
-    "design_ref": "3 C15", "technique": "runtime monitoring: round-trip monitor through the real save and load paths in a private mount namespace, exhaustive over key codes",
+    "design_ref": "3 C15", "technique": "runtime monitoring: round-trip monitor through the real save and load paths in a private mount namespace, exhaustive over key codes; valid, generated and mutated (hostile but accepted) programs",
     "exhaustive_counter": "per_key_code", "exhaustive_text": "all key codes the enum knows",
 }
 PROPS["C16"] = {
@@ -153,7 +153,7 @@ PROPS["C16"] = {
     "assumptions": ["entries are delimited by the I: line, which the kernel always prints", "an entry's own classification (the extractor run on that entry alone) defines keyboard-like", "glob semantics of --exclude: * any sequence, ? one character, whole-name match"],
     "level_text": "Metamorphic (entry alone vs in context) and differential (two extractors, two CLI routes) monitors plus an independent glob matcher; the CLI routes are observed on the real binary in a fabricated namespace.",
     "level_note": "Trusted: the extractor / exclusion wrapper hooks, the parsing of the binary's --verbose output, the fabricated /proc, /sys and /dev trees.",
-    "design_ref": "3 C16", "technique": "runtime monitoring: metamorphic + differential monitors at hook level and on the real binary in a private mount namespace",
+    "design_ref": "3 C16", "technique": "runtime monitoring: metamorphic + differential monitors at hook level and on the real binary in a private mount namespace; synthesised key bitmaps; exhaustive pairs of small exclude patterns against an independent glob matcher",
     "needs_real_binary": True,
 }
 
